@@ -23,6 +23,11 @@ THEOREMS = [
     "VK.electChoice_lineq",
     "VK.stvLoop_lineq_inv",
     "VK.C08_stv_representation_invariant_fractional",
+    "VK.randomAssign_need",
+    "VK.randomAssign_lsum",
+    "VK.applyTransfer_random_on",
+    "VK.stvStep_random_on",
+    "VK.C08_stv_representation_invariant_random",
 ]
 RULE = ("cases = deterministic configuration of every ranking / scoring / pairwise rule (as in C10) on a random profile; "
         "five transformations of the input: rename the candidates by a random bijection into a second name pool (sort "
